@@ -410,7 +410,14 @@ def make_window_pair(target):
                 exchange(p, 's', em)
         v = sym_int('initial_window_size', 0, 2 ** 20, default=100)
         cap = models.Out(p.c.me)
-        p.c.me.update_settings({SettingCodes.INITIAL_WINDOW_SIZE: v})
+        # a large frame-size limit, so that one DATA frame can use a whole window
+        p.c.me.update_settings({SettingCodes.INITIAL_WINDOW_SIZE: v,
+                                SettingCodes.MAX_FRAME_SIZE: 2 ** 24 - 1})
+        if sym_bool('second_change_in_flight'):
+            # a second change before the first is acknowledged (possibly back to the value
+            # in force): the LAST one counts on both sides
+            v = sym_int('initial_window_size_2', 0, 2 ** 20, default=65535)
+            p.c.me.update_settings({SettingCodes.INITIAL_WINDOW_SIZE: v})
         log = exchange(p, 'c', _take(p.c, cap))
         for d, evs, exc in log:
             check(exc is None, 'settings-exchange-rejected:' + type(exc).__name__, None)
@@ -424,9 +431,12 @@ def make_window_pair(target):
                       type(exc).__name__, None)
         from engine.models import sym_bytes
         data = sym_bytes('n', 0, 70000, default=65535)
+        pad = None
+        if sym_bool('padded'):
+            pad = sym_int('pad_length', 0, 255, default=0)
         cap = models.Out(p.s.me)
         try:
-            p.s.me.send_data(sid, data)
+            p.s.me.send_data(sid, data, pad_length=pad)
         except h2.exceptions.ProtocolError:
             note('refused')
             return
